@@ -23,7 +23,7 @@ from . import valemodel as VM
 VALS = {
     '1': 1, '0': 0, '2': 2, '3': 3, '-1': -1, 'True': True, 'False': False, "'a'": 'a', "'b'": 'b', "''": '', "'ab'": 'ab',
     '1.5': 1.5, '0.0': 0.0, '1.0': 1.0, 'None': None, "b'x'": b'x', "b''": b'', '1j': 1j, 'E.A': U.E.A, 'E.B': U.E.B,
-    '...': ...,
+    'IE.X': U.IE.X, 'IE.Y': U.IE.Y, '...': ...,
 }
 NEW = {'K': U.K, 'K2': U.K2, 'Other': U.Other, 'PImpl': U.PImpl, 'G': U.G, 'object': object}
 CLS = {'int': int, 'bool': bool, 'str': str, 'float': float, 'bytes': bytes, 'K': U.K, 'K2': U.K2, 'Other': U.Other,
@@ -78,6 +78,8 @@ def mk(o):
         return getattr(mk(o[2]), o[1])()
     if tag == 'fn':
         return _fn_f
+    if tag == 'o':
+        return U.Obj(**{k: mk(v) for k, v in o[1]})
     raise ValueError(o)
 
 
@@ -97,6 +99,8 @@ def osrc(o) -> str:
         return f'{osrc(o[2])}.{o[1]}()'
     if tag == 'fn':
         return '(lambda x: x)'
+    if tag == 'o':
+        return 'Obj(' + ', '.join(f'{k}={osrc(v)}' for k, v in o[1]) + ')'
     raise ValueError(o)
 
 
@@ -130,6 +134,10 @@ ATOM_WIT = {
     'Other': [NW('Other')],
     'E': [V('E.A'), V('E.B')],
     'N': [V('1'), V('True')],
+    'IE': [V('IE.X'), V('IE.Y')],
+    'NL': [('c', 'list', ()), ('c', 'list', (V('1'), V('0')))],
+    'TL': [('c', 'list', ()), ('c', 'list', (V('1'), V('0')))],
+    'TU': [V('1'), V("'a'")],
     'T': [V('1'), V("'a'"), NW('K')],
     'TB': [V('1'), V('True')],
     'TC': [V('1'), V("'a'")],
@@ -491,6 +499,75 @@ class Gen:
                     items = tuple(bads[0] if j == i else good[0] for j in range(n))
                     out.append((('c', c, items), n, i))
         return out
+
+
+def _mixed(self, t, nest=True):
+    """Objects strictly between sat_some and sat_all (some items fine, exactly one bad, at every position and in
+    every applicable carrier): the reference model says nothing about their verdict, which may depend on the draw
+    or on iteration order -- they feed the *differential* oracles (entry-point agreement, metamorphic rewriting)."""
+    tag = t[0]
+    out = []
+    if tag == 'tv':
+        carriers, child = ['tuple'], t[2]
+    elif tag == 'c1' and HS.C1[t[1]][2] in ('seq', 'quasi', 'reit'):
+        cls = HS.C1[t[1]][1]
+        if cls in (HS.cabc.KeysView, HS.cabc.ValuesView):
+            return out
+        carriers, child = self._c1_carriers(cls), t[2]
+    elif tag == 'g' and t[1] == 'GL':
+        carriers, child = ['GL'], t[2]
+    elif tag == 'c2' and HS.C2[t[1]][2] == 'map':
+        gk, gv = _spread(self.wit(t[2]), 2), _spread(self.wit(t[3]), 1)
+        bk, bv = self._bad_items(t[2], 1), self._bad_items(t[3], 1)
+        hgk = [k for k in gk if _hashable(k)]
+        pls = []
+        if len(hgk) >= 2 and gv and bv:
+            pls += [((hgk[0], gv[0]), (hgk[1], bv[0])), ((hgk[0], bv[0]), (hgk[1], gv[0]))]
+        if hgk and gv and bk and _hashable(bk[0]):
+            pls += [((hgk[0], gv[0]), (bk[0], gv[0])), ((bk[0], gv[0]), (hgk[0], gv[0]))]
+        for c in self._m_carriers(HS.C2[t[1]][1]):
+            for pl in pls:
+                out.append(('m', c, pl))
+        if nest and gv and hgk:
+            for mo in self.mixed(t[3], nest=False)[:4]:
+                out.append(('m', 'dict', ((hgk[0], mo),)))
+        return [o for o in out if buildable(o)]
+    elif tag == 'u':
+        for m in t[2:]:
+            out += self.mixed(m, nest=False)[:6]
+        return out
+    elif tag == 'tf':
+        per = [_spread(self.wit(m), 1) for m in t[2:]]
+        if all(per):
+            base = tuple(p[0] for p in per)
+            for i, m in enumerate(t[2:]):
+                for mo in self.mixed(m, nest=False)[:3]:
+                    out.append(('c', 'tuple', base[:i] + (mo,) + base[i + 1:]))
+        return out
+    else:
+        return out
+    good = _spread(self.wit(child), 2)
+    bads = self._bad_items(child, 1)
+    if good and bads:
+        for c in carriers:
+            if c in ('gen', 'iter', 'UCont'):
+                continue
+            for n in (2, 3):
+                for i in range(n):
+                    items = tuple(bads[0] if j == i else good[min(j, len(good) - 1) if j < i else 0] for j in range(n))
+                    o = ('c', c, items)
+                    if buildable(o):
+                        out.append(o)
+    if nest:
+        for mo in self.mixed(child, nest=False)[:4]:
+            for c in carriers[:2]:
+                o = ('c', c, (mo,))
+                if buildable(o):
+                    out.append(o)
+    return out
+
+
+Gen.mixed = _mixed
 
 
 def _hashable(o) -> bool:
